@@ -27,7 +27,7 @@ for tier in ("quick", "thorough"):
             if key in known:
                 continue
             cid = str(v["case"].get("id", ""))
-            if not v["case"].get("pinned", True) and not cid.startswith(("grid", "crit", "range", "sort", "pin")):
+            if not v["case"].get("pinned", True) and not cid.startswith(("grid", "crit", "range", "sort", "pin", "cenum", "tiny", "crlf")):
                 print("  SKIP (seeded case, not learnable):", v["signature"], cid)
                 continue
             known.add(key)
